@@ -155,7 +155,7 @@ pub fn run(ctx: &Ctx) -> i32 {
     ev.exhaustive = Some(false);
     ev.set("exhaustive_subspaces", json!(fams.iter().map(|f| format!("{f:?}")).collect::<Vec<_>>()));
     // random
-    let cases = ctx.tier.pick(300_000u32, 3_000_000u32);
+    let cases = ctx.tier.pick(600_000u32, 3_000_000u32);
     for p in profiles() {
         let out = prop::run_prop("C09", ctx.tier, ctx.seed, p.name, cases / 6, ctx.threads, if p.name == "big" { 900 } else { 400 }, |stream, ev| {
             let g = ggen::build(&p, stream);
